@@ -608,11 +608,8 @@ func (ts *TermStore) Bin(op Op, a, b *Term) *Term {
 		if a == b {
 			return a
 		}
-		// (zext(x) << k) | zext(y) with y narrower than k  => concat pattern
-		if r := ts.orAsConcat(a, b); r != nil {
-			return r
-		}
-		if r := ts.orAsConcat(b, a); r != nil {
+		// operands with disjoint non-zero segments (big-endian assembly idioms) => concat
+		if r := ts.orDisjoint(a, b); r != nil {
 			return r
 		}
 	case OpBvXor:
@@ -698,26 +695,77 @@ func (ts *TermStore) Bin(op Op, a, b *Term) *Term {
 	return ts.mk(op, w, 0, "", a, b)
 }
 
-// orAsConcat recognises  concat(X, 0_k) | zext(Y)  with width(Y) <= k.
-func (ts *TermStore) orAsConcat(a, b *Term) *Term {
-	if a.Op != OpConcat || a.Args[1].Op != OpConst || a.Args[1].Val != 0 {
+type seg struct {
+	w uint8
+	t *Term // nil = zero bits
+}
+
+func (ts *TermStore) segs(t *Term, out []seg) []seg {
+	switch t.Op {
+	case OpConst:
+		if t.Val == 0 {
+			return append(out, seg{t.W, nil})
+		}
+	case OpZext:
+		out = append(out, seg{t.W - t.Args[0].W, nil})
+		return ts.segs(t.Args[0], out)
+	case OpConcat:
+		out = ts.segs(t.Args[0], out)
+		return ts.segs(t.Args[1], out)
+	}
+	return append(out, seg{t.W, t})
+}
+
+// orDisjoint merges a|b when, segment by segment (high to low), at most one side is non-zero.
+func (ts *TermStore) orDisjoint(a, b *Term) *Term {
+	sa := ts.segs(a, nil)
+	sb := ts.segs(b, nil)
+	if len(sa) == 1 && sa[0].t != nil && len(sb) == 1 && sb[0].t != nil {
 		return nil
 	}
-	k := a.Args[1].W
-	var y *Term
-	switch {
-	case b.Op == OpZext && b.Args[0].W <= k:
-		y = b.Args[0]
-	case b.Op == OpConcat && b.Args[0].Op == OpConst && b.Args[0].Val == 0 && b.Args[1].W <= k:
-		y = b.Args[1]
-	default:
-		return nil
+	var parts []*Term
+	ia, ib := 0, 0
+	var ra, rb uint8 // bits already consumed from the current segments (from the high end)
+	for ia < len(sa) && ib < len(sb) {
+		wa, wb := sa[ia].w-ra, sb[ib].w-rb
+		w := wa
+		if wb < w {
+			w = wb
+		}
+		pick := func(s seg, consumed uint8) *Term {
+			if s.t == nil {
+				return nil
+			}
+			hi := s.w - consumed - 1
+			return ts.Extract(s.t, hi, hi-w+1)
+		}
+		pa, pb := pick(sa[ia], ra), pick(sb[ib], rb)
+		switch {
+		case pa != nil && pb != nil:
+			return nil
+		case pa != nil:
+			parts = append(parts, pa)
+		case pb != nil:
+			parts = append(parts, pb)
+		default:
+			parts = append(parts, ts.Const(w, 0))
+		}
+		ra += w
+		rb += w
+		if ra == sa[ia].w {
+			ia++
+			ra = 0
+		}
+		if rb == sb[ib].w {
+			ib++
+			rb = 0
+		}
 	}
-	lo := y
-	if y.W < k {
-		lo = ts.Zext(y, k)
+	r := parts[0]
+	for _, p := range parts[1:] {
+		r = ts.Concat(r, p)
 	}
-	return ts.Concat(a.Args[0], lo)
+	return r
 }
 
 func (ts *TermStore) Extract(a *Term, hi, lo uint8) *Term {
